@@ -924,8 +924,16 @@ def strict(R):
             calls = calls_to(R, g, VAL + '.validate')
             ok = False
             for (n, c) in calls:
-                recv_fresh = isinstance(c.func, ast.Attribute) and isinstance(c.func.value, ast.Call) and \
-                    any(t.kind == 'ctor' and t.cls == VAL for t in R.types.call_targets(c.func.value, ctx))
+                rcv_ = c.func.value if isinstance(c.func, ast.Attribute) else None
+                if isinstance(rcv_, ast.Name):
+                    # validator = Utf8Validator() kept in a local that only this call uses
+                    ro_, _ = rd.origin(n, rcv_)
+                    uses_ = sum(1 for x in own_nodes(f.node) if isinstance(x, ast.Name) and x.id == rcv_.id
+                                and isinstance(x.ctx, ast.Load))
+                    if isinstance(ro_, ast.Call) and uses_ == 1:
+                        rcv_ = ro_
+                recv_fresh = isinstance(rcv_, ast.Call) and \
+                    any(t.kind == 'ctor' and t.cls == VAL for t in R.types.call_targets(rcv_, ctx))
                 arg_ok = c.args and (U(c.args[0]) in src or (isinstance(c.args[0], ast.Name) and c.args[0].id in src))
                 v0 = None
                 if recv_fresh and arg_ok and isinstance(n.ast, ast.Assign):
@@ -935,6 +943,19 @@ def strict(R):
                             and n.ast.value.value is c and isinstance(n.ast.value.slice, ast.Constant) \
                             and n.ast.value.slice.value == 0:
                         v0 = n.ast.targets[0]                      # valid = V().validate(b)[0]
+                if v0 is None and recv_fresh and arg_ok and isinstance(n.ast, ast.Assign) and n.ast.value is c \
+                        and isinstance(n.ast.targets[0], ast.Name):
+                    # result = V().validate(b);  valid, _, _, _ = result   /   valid = result[0]
+                    rn_ = n.ast.targets[0].id
+                    for m_ in g.live_nodes():
+                        if m_.kind == 'stmt' and isinstance(m_.ast, ast.Assign) and rd.defs_at(m_, rn_) == {n}:
+                            v_ = m_.ast.value
+                            if isinstance(v_, ast.Name) and v_.id == rn_ and isinstance(m_.ast.targets[0], ast.Tuple):
+                                v0 = m_.ast.targets[0].elts[0]
+                            elif isinstance(v_, ast.Subscript) and isinstance(v_.value, ast.Name) and v_.value.id == rn_ \
+                                    and isinstance(v_.slice, ast.Constant) and v_.slice.value == 0 \
+                                    and isinstance(m_.ast.targets[0], ast.Name):
+                                v0 = m_.ast.targets[0]
                 if v0 is not None:
                     for rn in g.live_nodes():
                         if rn.kind == 'stmt' and isinstance(rn.ast, ast.Raise):
